@@ -1031,3 +1031,64 @@ func ruleIterSiblings(c *Ctx) {
 	c.sawFn(fnName(a))
 	c.judge(len(da) == 0 && len(db) == 0, "R-ITER-SIBLING", "omap.Map.First~Last:iterator fields", b.Pos(), "same fields initialised", fmt.Sprintf("First initialises %v that Last does not, Last %v that First does not: an iterator from one end lacks state the other has (without its map it cannot Seek)", da, db))
 }
+
+// ruleNilWriteback (part of R-NIL-LAZY): in a pointer-receiver method of Set, a map allocated because the receiver's
+// map was nil is stored back through the receiver — otherwise the elements land in a map only the result refers to.
+func ruleNilWriteback(c *Ctx) {
+	for _, fn := range c.P.Methods("mapset", "Set") {
+		if len(fn.Params) == 0 {
+			continue
+		}
+		if _, isPtr := fn.Params[0].Type().(*types.Pointer); !isPtr {
+			continue
+		}
+		recv := fn.Params[0]
+		fn := fn
+		allInstrs(fn, func(in ssa.Instruction) {
+			var fresh ssa.Value
+			switch x := in.(type) {
+			case *ssa.MakeMap:
+				fresh = x
+			case *ssa.Call:
+				if cal := staticCallee(&x.Call); cal != nil && (cal.Name() == "Clone" || cal.Name() == "New" || cal.Name() == "NewSize") {
+					if _, isMap := x.Type().Underlying().(*types.Map); isMap {
+						fresh = x
+					}
+				}
+			}
+			if fresh == nil {
+				return
+			}
+			// allocated on a path where the receiver's map is known to be nil
+			underNil := false
+			for _, cm := range cmpsAt(in.Block()) {
+				if cm.Op != token.EQL {
+					continue
+				}
+				for _, pr := range [][2]ssa.Value{{cm.X, cm.Y}, {cm.Y, cm.X}} {
+					if a, ok := loadAddr(pr[0]); ok && a == ssa.Value(recv) && isNilConst(pr[1]) {
+						underNil = true
+					}
+				}
+			}
+			if !underNil {
+				return
+			}
+			stored := false
+			for _, r := range referrersOf(fresh) {
+				if st, ok := r.(*ssa.Store); ok && st.Addr == ssa.Value(recv) && st.Val == fresh {
+					stored = true
+				}
+				if ct, ok := r.(*ssa.ChangeType); ok {
+					for _, r2 := range referrersOf(ct) {
+						if st, ok := r2.(*ssa.Store); ok && st.Addr == ssa.Value(recv) {
+							stored = true
+						}
+					}
+				}
+			}
+			c.sawFn(fnName(fn))
+			c.judge(stored, "R-NIL-LAZY", fnName(fn)+":fresh map stored back", in.Pos(), "*s = the map allocated for a nil receiver", "a map is allocated because the receiver's map was nil, but it is never stored back through the receiver: the elements end up in a map only the return value refers to, and the caller's set stays nil")
+		})
+	}
+}
